@@ -550,7 +550,8 @@ func loRequire(L *LState) int {
 		L.Push(lv)
 		return 1
 	}
-	loaders, ok := L.GetField(L.Get(RegistryIndex), "_LOADERS").(*LTable)
+	// the field is read at each call: the program may replace the table, not only its elements
+	loaders, ok := L.GetField(L.GetField(L.Get(EnvironIndex), "package"), "loaders").(*LTable)
 	if !ok {
 		L.RaiseError("package.loaders must be a table")
 	}
